@@ -53,6 +53,7 @@ type poolAnalysis struct {
 	sizePar  *ssa.Parameter
 	cbParams map[*ssa.Parameter]bool
 	jCount   int
+	seqArgs  []ssa.Value // actuals for the sequential counterpart when there is no shortcut call
 }
 
 func (pa *poolAnalysis) isCallback(e *env, v ssa.Value) bool {
@@ -260,6 +261,16 @@ func (pa *poolAnalysis) shape(v *visit, l *ssau.Loop) {
 			if u, ok := ia.X.(*ssa.UnOp); ok {
 				v.dstCell = u.X
 			}
+			if ms, ok := base.(*ssa.MakeSlice); ok {
+				// the variable cell of the pool method that holds the result array
+				for _, r := range ssau.Refs(ms) {
+					if s2, ok := r.(*ssa.Store); ok && s2.Val == ssa.Value(ms) {
+						if a, ok := s2.Addr.(*ssa.Alloc); ok {
+							v.dstCell = a
+						}
+					}
+				}
+			}
 			kp, ok := k.plain()
 			if !ok || !kp.equal(v.idx) {
 				v.problems = append(v.problems, "result stored at "+k.String()+" but computed for index "+v.idx.String())
@@ -303,6 +314,21 @@ func (k *checker) analysePool(fn *ssa.Function, out sink) {
 	}
 	cl, why := recogniseLoop(pa.spawnL)
 	if cl == nil {
+		// typical cause: the literal captures the loop variable, which then lives in a cell
+		if mc, ok := pa.goInstr.Common().Value.(*ssa.MakeClosure); ok {
+			for _, b := range mc.Bindings {
+				a, ok := b.(*ssa.Alloc)
+				if !ok || pa.spawnL.Blocks[a.Block()] {
+					continue
+				}
+				for _, r := range ssau.Refs(a) {
+					if st, ok := r.(*ssa.Store); ok && st.Addr == ssa.Value(a) && pa.spawnL.Blocks[st.Block()] {
+						out.violate("CONC-3", name, gpos, "worker captures variable '"+allocName(a)+"' which the spawn loop re-assigns: with go.mod < 1.22 all workers share it and read whatever value it has when they run")
+						return
+					}
+				}
+			}
+		}
 		out.undecide("SYM-PART", name, gpos, "spawn loop not recognised: "+why)
 		return
 	}
@@ -343,7 +369,10 @@ func (k *checker) analysePool(fn *ssa.Function, out sink) {
 	var total Poly
 	haveTotal := false
 	if seqFn != nil {
-		se := pa.root.callEnv(seqFn, seqCall.Call.Args)
+		if seqCall != nil {
+			pa.seqArgs = seqCall.Call.Args
+		}
+		se := pa.root.callEnv(seqFn, pa.seqArgs)
 		seqVisits = pa.findVisits(se, "", 0)
 		for i, sv := range seqVisits {
 			if sv.err != "" {
@@ -397,6 +426,9 @@ func (k *checker) analysePool(fn *ssa.Function, out sink) {
 		if z := loNL.subst(iAtom, pConst(0)); !z.isZero() {
 			bad = append(bad, "first worker starts at "+z.String()+", not 0")
 		}
+		if z := loL.subst(iAtom, pConst(0)).subst(singleAtomOr(pa.n), pConst(1)); !z.isZero() {
+			bad = append(bad, "with one worker the range starts at "+z.String()+", not 0")
+		}
 		next := loNL.subst(iAtom, pAtom(iAtom).add(pConst(1)))
 		if !hiNL.equal(next) {
 			bad = append(bad, "worker i ends at "+hiNL.String()+" but worker i+1 starts at "+next.String()+" (ranges overlap or leave a gap)")
@@ -448,7 +480,7 @@ func (k *checker) analysePool(fn *ssa.Function, out sink) {
 		// compare with the sequential visit (same helper when there is one)
 		var sv *visit
 		for i := range seqVisits {
-			if seqVisits[i].err == "" && (seqVisits[i].fn == v.fn || (len(seqVisits) == 1 && v.via == "")) {
+			if seqVisits[i].err == "" && (seqVisits[i].fn == v.fn || len(seqVisits) == 1) {
 				sv = &seqVisits[i]
 			}
 		}
@@ -550,9 +582,28 @@ func (pa *poolAnalysis) shortcut(out sink) (*ssa.Function, *ssa.Call) {
 		found, foundFn = call, call.Common().StaticCallee()
 	}
 	pos := p.Pos(fn.Pos())
+	if found == nil && len(problems) == 0 {
+		// no shortcut at all: the general path also serves one worker (i = 0 is the last worker).
+		// The sequential counterpart is then resolved by name and bound positionally.
+		wantName := strings.TrimSuffix(strings.TrimSuffix(fn.Name(), "WithPoolSize"), "Parallel")
+		if fn.Pkg != nil {
+			for _, cand := range p.FuncsOf(fn.Pkg) {
+				if cand.Name() == wantName && cand.Parent() == nil && sameRecv(cand, fn) && len(cand.Params) == len(fn.Params)-1 {
+					pa.seqArgs = nil
+					for _, prm := range fn.Params {
+						if prm != pa.sizePar {
+							pa.seqArgs = append(pa.seqArgs, prm)
+						}
+					}
+					out.hold("SEQ-1", name, pos, "no single-worker shortcut: the spawn path handles workers == 1 (worker 0 is the last worker); compared against "+p.FuncName(cand))
+					return cand, nil
+				}
+			}
+		}
+	}
 	if found == nil {
 		if len(problems) == 0 {
-			problems = append(problems, "no `workers == 1` shortcut delegating to the sequential method")
+			problems = append(problems, "no `workers == 1` shortcut delegating to the sequential method, and no sequential counterpart found by name")
 		}
 		out.undecide("SEQ-1", name, pos, problems[0])
 		return nil, nil
@@ -908,7 +959,7 @@ func (pa *poolAnalysis) resultAgreement(seqFn *ssa.Function, seqCall *ssa.Call, 
 		return dedup(out)
 	}
 	par := desc(pa.root, pa.fn, visits, seqCall)
-	seq := desc(pa.root.callEnv(seqFn, seqCall.Call.Args), seqFn, seqVisits, nil)
+	seq := desc(pa.root.callEnv(seqFn, pa.seqArgs), seqFn, seqVisits, nil)
 	pos := p.Pos(pa.fn.Pos())
 	if strings.Join(par, " | ") == strings.Join(seq, " | ") && len(par) > 0 {
 		out.hold("SEQ-1", name, pos, "both return "+strings.Join(par, " | "))
@@ -981,4 +1032,11 @@ func (k *checker) wrapper(w, pool *ssa.Function, sizePar int, out sink) {
 	} else {
 		out.hold("SEQ-1", name, pos, "returns "+p.FuncName(pool)+"(own arguments…, runtime.NumCPU())")
 	}
+}
+
+func singleAtomOr(p Poly) string {
+	if a, ok := p.singleAtom(); ok {
+		return a
+	}
+	return "\x00none"
 }
